@@ -646,6 +646,8 @@ def _object_facts(cls: ast.ClassDef, fns: dict[str, ast.FunctionDef], attr_slots
     seqs = [ent.body] + ([mk.body] if calls_mk else [])
     for body in seqs:
         for st in body:
+            if st is not body[-1] and any(isinstance(x, ast.Return) for x in ast.walk(st)):
+                break      # an early return: what follows is not executed on every entry
             if isinstance(st, ast.Assign) and len(st.targets) == 1 and (_key(st.targets[0]) or '').startswith('self.'):
                 v = _const_val(st.value)
                 k = _key(st.targets[0])
@@ -656,7 +658,9 @@ def _object_facts(cls: ast.ClassDef, fns: dict[str, ast.FunctionDef], attr_slots
     if calls_mk:
         # the temp-name loop is left only by the `break` after the open (obligation temp_loop_retries_only_on_file_exists):
         # the name assigned before the attempt and the handle assigned from the open call are bound on every entry
-        loops = [n for n in mk.body if isinstance(n, ast.For)]
+        cut = next((i for i, st in enumerate(mk.body[:-1]) if any(isinstance(x, ast.Return) for x in ast.walk(st))),
+                   len(mk.body))
+        loops = [n for n in mk.body[:cut + 1] if isinstance(n, ast.For)]
         for loop in loops:
             for st in loop.body:
                 if isinstance(st, ast.Assign) and len(st.targets) == 1 and _key(st.targets[0]) == 'self._temp_name' \
